@@ -977,13 +977,7 @@ class Fn:
             fuel_arg = None
         else:
             kind = "while"
-            f = self.fuel[id(s)]
-            if f == ("param",):
-                fuel_arg = "fuel"
-            elif f[0] == "len" and f[1] in self.env and self.env[f[1]][1] in ("idx", "z", "lq", "ls"):
-                fuel_arg = f"(length {self.env[f[1]][0]})"
-            else:
-                fail(s, self.fn, f"fuel declaration {f} not understood")
+            fuel_arg = self.fuel_text(self.fuel[id(s)], s)
         defname = name + ("_step" if kind == "step" else "")
         fargs = [c for c, _ in fixed]
         cargs = [self.env[nm][0] for nm in consts]
@@ -1051,6 +1045,14 @@ class Fn:
                 fail(s, self.fn, "internal: a loop with an error result in a definition without")
             return f"{pad}match {run} with\n{pad}| None => None\n{pad}| Some {opat} =>\n" + rest_fn() + f"\n{pad}end"
         return f"{pad}let {pat(self.env[nm][0] for nm in state)} := {run} in\n" + rest_fn()
+
+    def fuel_text(self, f, s):
+        """the fuel that the enclosing definition passes to the while loop `s` (declared in FUNCS)"""
+        if f == ("param",):
+            return "fuel"
+        if f[0] == "len" and f[1] in self.env and self.env[f[1]][1] in ("idx", "z", "lq", "ls"):
+            return f"(length {self.env[f[1]][0]})"
+        fail(s, self.fn, f"fuel declaration {f} not understood")
 
     def own_nodes(self, loop):
         """the nodes of the body of `loop` that are not inside a nested loop"""
